@@ -91,6 +91,7 @@ pub fn ref_plan(op: &Op, env: &Option<String>) -> Plan {
         clock_step_ns: 0,
         block_yield_mean: 0,
             atomic_yield_mean: 0,
+            atomic_hold_mean: 0,
     }
 }
 
